@@ -160,20 +160,35 @@ func stripSpreadDeep(t *Term) *Term {
 
 // paramGetter finds the keeper function that reads the given parameter key.
 func (c *Check) paramGetter(key string) *Func {
+	// the function that reads this key and as few other keys as possible (the dedicated getter, not the
+	// function that assembles the whole parameter set)
+	var best *Func
+	bestN := 0
 	for _, f := range c.handFuncs("keeper") {
+		reads := map[string]bool{}
+		hit := false
 		for _, pa := range c.P.PathsOf(f) {
 			for _, ev := range pa.Events {
 				if ev.Kind == EvCall && strings.HasSuffix(ev.CI.name, "Subspace.Get") {
 					for _, a := range ev.CI.args {
-						if a.IsAt("@types." + key) {
-							return f
+						if a.Op == "" && strings.HasPrefix(a.At, "@types.Key") {
+							reads[a.At] = true
+							if a.IsAt("@types." + key) {
+								hit = true
+							}
 						}
 					}
 				}
 			}
 		}
+		if !hit {
+			continue
+		}
+		if best == nil || len(reads) < bestN || (len(reads) == bestN && f.Name < best.Name) {
+			best, bestN = f, len(reads)
+		}
 	}
-	return nil
+	return best
 }
 
 func (c *Check) paramTerm(rule, key string) string {
